@@ -4,7 +4,7 @@ CHECKS = {
     "C01": {
         "level": "exploration",
         "technique": "property-based testing: generated operation trees (Hypothesis + bounded enumeration) vs independent evaluator and Z3 equivalence oracle",
-        "text": "Generated-input search: random typed BV/Bool trees, rewrite-shaped templates and an exhaustive enumeration of two-operator shapes at width<=3 are built through the public API and compared, for all assignments (small widths) or by a Z3 validity query, with an independently written semantics. No counterexample in the explored space; absence elsewhere is not claimed.",
+        "text": "Generated-input search: random typed BV/Bool trees, rewrite-shaped templates an exhaustive enumeration of two-operator shapes at width<=3 and an enumeration of every binary operator / comparison on every pair of ~30 boundary constants at 11-23 widths up to 256 bits (constant folding) are built through the public API and compared, for all assignments (small widths) or by a Z3 validity query, with an independently written semantics. No counterexample in the explored space; absence elsewhere is not claimed.",
         "note": "Trusts Z3's bit-vector decision procedure and the three independently written reference semantics agreeing; per-case Z3 timeouts are counted inconclusive.",
     },
     "C04": {
@@ -29,7 +29,7 @@ CHECKS = {
         "level": "exploration",
         "technique": "property-based testing: annotated operation trees with a reachability oracle on annotation instances after every construction step",
         "text": "Generated trees (all rewrite templates uniformly, random, small, concrete) with eliminatable / pinned / relocatable annotation instances on leaves and inner nodes; after each construction step pinned instances reachable from the arguments must be reachable from the result and relocatable ones of direct arguments must be on the result; claripy.simplify keeps top-level and direct-argument relocatable annotations; solver simplify/min/max/eval keep SimplificationAvoidance-annotated constraints as the same objects; the meaning oracle of C01 runs too.",
-        "note": "For SolverComposite, And-rooted annotated constraints are out of scope (the composite stores a conjunction as its conjuncts by design).",
+        "note": "The solver part runs Solver, SolverCacheless, SolverComposite, SolverHybrid and SolverReplacement; a non-claripy exception while taking an annotated constraint is reported.",
     },
     "C08": {
         "level": "exploration",
@@ -52,13 +52,13 @@ CHECKS = {
     "C11": {
         "level": "exploration",
         "technique": 'stateful property-based testing: generated and bounded-exhaustive solver histories checked after every step against a brute-force model set',
-        "text": 'Generated-input search over operation histories on Solver and SolverCacheless (reuse off/on): random histories, cache-directed scenario rounds that repeat the same queries after further adds / branches, and every sequence of length <=3 (quick) / <=4 (thorough) over a 10-operation alphabet. Each answer is compared with the model set over all 2^17 assignments maintained from the constraints the harness added.',
+        "text": 'Generated-input search over operation histories on Solver and SolverCacheless (reuse off/on): random histories, cache-directed scenario rounds that repeat the same queries after further adds / branches, and every sequence of length <=3 (quick) / <=4 (thorough) over a 10-operation alphabet; plus histories on SolverStrings / Solver / SolverCacheless over string variables confined to generated finite domains, judged by the Python SMT-LIB string semantics on the explicit list of domain assignments (a query on which Z3's sequence solver gives up is counted, not judged). Each answer is compared with the model set over all 2^17 assignments maintained from the constraints the harness added.',
         "note": 'Brute-force model-set reference is exact only within 17 variable bits (4 four-bit variables + 1 Boolean); latitude of DESIGN 3.2 (eval may return any feasible subset of the right size; empty result or UnsatError when no value exists; semantically constant queries answered without the solver).',
     },
     "C12": {
         "level": "exploration",
         "technique": 'stateful property-based testing: generated SolverComposite histories (incl. split/combine/merge) vs a brute-force model set that knows nothing about children',
-        "text": 'Generated-input search over histories on SolverComposite (default, track=True, reuse on) whose constraints connect and disconnect variable groups in generated orders, with branch, simplify, split, combine, merge and blank_copy; every answer is checked against the brute-force model set; simplify() must preserve the model set of the stored constraints.',
+        "text": 'Generated-input search over histories on SolverComposite (default, track=True, reuse on) whose constraints connect and disconnect variable groups in generated orders, with branch, simplify, split, combine, merge and blank_copy, directed scenarios (exhaust two groups then bridge them, helper children left by min/max of unconstrained terms, spanning queries before a branch) and the finite-domain string histories of C11; every answer is checked against the brute-force model set; simplify() must preserve the model set of the stored constraints.',
         "note": 'Brute-force model-set reference is exact only within 17 variable bits (4 four-bit variables + 1 Boolean); latitude of DESIGN 3.2 (eval may return any feasible subset of the right size; empty result or UnsatError when no value exists; semantically constant queries answered without the solver).',
     },
     "C13": {
@@ -82,13 +82,13 @@ CHECKS = {
     "C16": {
         "level": "exploration",
         "technique": 'stateful property-based testing: tracked-solver histories reaching unsatisfiability through generated add orders; core checked for element type, membership and unsatisfiability by brute force',
-        "text": 'Generated-input search on Solver/SolverComposite/SolverHybrid with track=True: contradiction families added in generated orders with queries, branches and provenance-tagged constraints interleaved; every unsat_core() result must be empty on a satisfiable solver and otherwise consist of added constraints (or their top-level conjuncts) whose conjunction has an empty brute-force model set.',
+        "text": 'Generated-input search on Solver/SolverComposite/SolverHybrid with track=True: contradiction families (recognised by the cheap syntactic check, found only by Z3, False itself) added in generated orders and batchings with queries, branches and provenance-tagged constraints interleaved, half of the cases directed (query and/or branch before the last member arrives); every unsat_core() result must be empty on a satisfiable solver and otherwise consist of added constraints (or their top-level conjuncts) whose conjunction has an empty brute-force model set.',
         "note": 'Brute-force model-set reference is exact only within 17 variable bits (4 four-bit variables + 1 Boolean); latitude of DESIGN 3.2 (eval may return any feasible subset of the right size; empty result or UnsatError when no value exists; semantically constant queries answered without the solver). One open known finding (cores list simplified forms after simplify()).',
     },
     "C18": {
         "level": "exploration",
         "technique": 'property-based testing: generated expressions and solver histories pickled in-process and into child processes with other hash seeds; structural-dump and model-set oracles',
-        "text": 'Generated-input search: expressions of all sorts (annotated, FP, strings) must unpickle to the same object in-process, and in children with PYTHONHASHSEED 0/1/12345 to a structurally equal expression that is hash-consed with an identical rebuild; solver histories with pickle steps on every frontend class keep answering per the brute-force model set.',
+        "text": 'Generated-input search: expressions of all sorts (annotated, FP, strings) must unpickle to the same object in-process, and in children with PYTHONHASHSEED 0/1/12345 to a structurally equal expression that is hash-consed with an identical rebuild; solver histories with pickle steps (single, every live solver in one dump, directed: pickled with unchecked adds / shared children / full caches) on every frontend class keep answering per the brute-force model set; a third of the pickles keep the copy as a twin that receives the same later operations and must give equal answers wherever the answer is determined by the solver's state -- which decides approximate mode (SolverHybrid with exact=False).',
         "note": 'Brute-force model-set reference is exact only within 17 variable bits (4 four-bit variables + 1 Boolean); latitude of DESIGN 3.2 (eval may return any feasible subset of the right size; empty result or UnsatError when no value exists; semantically constant queries answered without the solver).',
     },
     "C02": {
@@ -112,32 +112,32 @@ CHECKS = {
     "C21": {
         "level": "exploration",
         "technique": "bounded-exhaustive enumeration + property-based testing: every pair of canonical strided intervals of width 1-3 (and a third / all at width 4) per transfer function, generated wide intervals with sampled members; containment of concrete results in the member set of the abstract result",
-        "text": "For every binary operation, comparison, unary operation, extension and extraction of StridedInterval, all operand pairs over all canonical intervals of width 1-3 are enumerated (width 4: a seed-selected third in the quick tier, all in the thorough tier) and every concrete result op(x,y) over the operands' members must lie in the member set of the abstract result, computed from (bits, stride, lb, ub) alone; comparisons must contain every truth value that occurs. Generated intervals at 8-64 bits are checked on sampled members. Exhaustive on the enumerated sub-domain, exploration beyond it.",
-        "note": "Signed division is an open finding (floor rounding pinned by the repository's tests): its failing operand pairs of width 1-4 are listed literally with the wrong result observed, any other failure is a violation, and the operation is excluded (counted) at wide widths.",
+        "text": "For every binary operation, comparison, unary operation, extension and extraction of StridedInterval, all operand pairs over all canonical intervals of width 1-3 are enumerated (width 4: a seed-selected third in the quick tier, all in the thorough tier) and every concrete result op(x,y) over the operands' members must lie in the member set of the abstract result, computed from (bits, stride, lb, ub) alone; comparisons must contain every truth value that occurs. Generated intervals at 8-64 bits are checked on sampled members. Chains: every result of a first operation (widths 3, 4) that is not a canonical form is fed to every second operation. Exhaustive on the enumerated sub-domain, exploration beyond it.",
+        "note": "Signed division is an open finding (floor rounding pinned by the repository's tests): a failure is attributed to it by a predicate that recomputes it on the failing input (every missing quotient comes from operands of different sign with a non-zero remainder), any other failure is a violation, and the operation is excluded (counted) at wide widths.",
     },
     "C22": {
         "level": "exploration",
         "technique": "bounded-exhaustive enumeration + property-based testing: all pairs (width 1-3, sampled/all at width 4) and triples (width 2, sampled/all at width 3) of canonical strided intervals for join/meet/widen, all canonical intervals of width 1-4 for the queries; member-set oracle",
-        "text": "union / least_upper_bound / pseudo_join / widen must contain every operand, intersection every common member; eval(n), min/max (signed and unsigned), cardinality, solution(v) for every v, is_empty/is_integer/is_top must agree exactly with the member set computed from (bits, stride, lb, ub). Enumerated over all canonical intervals of small width, generated with sampled members at 8-64 bits.",
+        "text": "union / least_upper_bound / pseudo_join / widen must contain every operand, intersection every common member; eval(n), min/max (signed and unsigned), cardinality, solution(v) for every v, is_empty/is_integer/is_top must agree exactly with the member set computed from (bits, stride, lb, ub). Enumerated over all canonical intervals of small width, generated with sampled members at 8-64 bits; at 8-64 bits cardinality, extrema, membership and small evals are also checked against closed forms, with huge cardinalities generated on purpose.",
         "note": "Off-lattice upper bounds (writable by a caller, meaning undocumented) are outside the oracle; widen is only checked for containment.",
     },
     "C23": {
         "level": "exploration",
         "technique": "bounded enumeration + property-based testing: DiscreteStridedIntervalSets and region ValueSets over canonical small-width intervals, member-set oracle per member / per region",
-        "text": "Every operation of DiscreteStridedIntervalSet (arithmetic, bitwise, shifts, division, concat, extract, extensions, comparisons, union / intersection / widen, collapse / normalize, eval / cardinality) over sets of <= 2 width-2 intervals against every such set / interval / integer is enumerated (thorough: all, quick: a seed-selected eighth), sets of <= 3 members at widths 3-8 are generated; ValueSets with 1-3 regions are generated with their operations (+, -, %, & incl. the mask special cases, vs - vs, union / intersection / widen with value sets and intervals, full extract, ==, !=, queries). The result must contain op(x, y) for every member x and y (per region for value sets), comparisons every truth value that occurs, intersections the common members; queries must agree with the member sets.",
+        "text": "Every operation of DiscreteStridedIntervalSet (arithmetic, bitwise, shifts, division, concat, extract, extensions, comparisons, union / intersection / widen, collapse / normalize, eval / cardinality) over sets of <= 2 width-2 intervals against every such set / interval / integer (also with the plain interval first and the set second) is enumerated (thorough: all, quick: a seed-selected eighth), sets of <= 3 members at widths 3-8 are generated; ValueSets with 1-3 regions are generated with their operations (+, -, %, & incl. the mask special cases, vs - vs, union / intersection / widen with value sets and intervals, full extract, ==, !=, queries). The result must contain op(x, y) for every member x and y (per region for value sets), comparisons every truth value that occurs, intersections the common members; queries must agree with the member sets.",
         "note": "Placeholder methods (ValueSet.concat / reverse / LShR / partial extract) are outside the oracle; failures reproducible on a single member interval are attributed to C21/C22; operations that reject an operand type (ClaripyVSAOperationError) count as declined.",
     },
     "C24": {
         "level": "exploration",
         "technique": "property-based testing: generated operation trees over SI-annotated variables, ALL assignments inside the intervals enumerated (numpy) as the oracle for BackendVSA's abstract value and SolverVSA's answers",
-        "text": "Generated BV/Bool trees (arithmetic, bitwise, shifts by constants and variables, extract/concat/extensions, comparisons, And/Or/Not, nested If, union/intersection/widen at the root) over 1-3 variables of width 2-6 annotated with intervals drawn from all canonical forms; every concrete value over all admissible assignments must be in the member set of backends.vsa.convert(expr) (truth values for Booleans); SolverVSA (with generated constraints) must not exclude a feasible value in eval (when it returns fewer than n), min, max, solution, nor claim unsat when a model exists. Declining (BackendError / ClaripyFrontendError) is allowed.",
-        "note": "Division only by non-zero constants; set operations only at the root or under one binary operation; widths <= 6 so that all assignments can be enumerated.",
+        "text": "Generated BV/Bool trees (arithmetic, bitwise, shifts by constants and variables, extract/concat/extensions, comparisons, And/Or/Not, nested If, equality / if-then-else between truth values, comparisons of two functions of one variable, union/intersection/widen at the root) over 1-3 variables of width 2-6 (plus byte reversal of 16-bit values over one 8- or 16-bit variable) annotated with intervals drawn from all canonical forms; every concrete value over all admissible assignments must be in the member set of backends.vsa.convert(expr) (truth values for Booleans); SolverVSA (with generated constraints) must not exclude a feasible value in eval (when it returns fewer than n), min, max, solution, nor claim unsat when a model exists. Declining (BackendError / ClaripyFrontendError) is allowed.",
+        "note": "Division only by non-zero constants; set operations only at the root or under one binary operation; widths <= 6 (16 for the byte-reversal cases) so that all assignments can be enumerated.",
     },
     "C25": {
         "level": "exploration",
         "technique": "property-based testing + bounded enumeration: generated comparison constraints over the shapes the balancer handles, ALL assignments enumerated (numpy) as the oracle for the returned satisfiability flag and bounds",
-        "text": "Generated constraints (and the complete set of one-variable shape x comparison x constant combinations at width 3) are passed to claripy.constraint_to_si and backends.vsa.constraint_to_si; all assignments (<= 2^16) are enumerated: if any satisfies the constraint the flag must be True, and for every returned (expression, bound) the expression's value under every satisfying assignment must be a member of the bound's member set (reversed intervals read as delayed byte swaps). End to end, SolverReplacement(complex_auto_replace) and SolverHybrid(exact=False) must keep every feasible value of each variable within [min, max] and stay satisfiable.",
-        "note": "Exceptions escaping constraint_to_si are counted in evidence but are not violations of this property; variables are unannotated (TOP).",
+        "text": "Generated constraints (one- to four-level nestings of the operators the balancer moves, byte reversal over structured 4/8-bit operands, (dis)equalities between truth values), the complete set of one-variable shape x comparison x constant combinations at width 3 and an enumerated family of shifts over extended variables are passed to claripy.constraint_to_si and backends.vsa.constraint_to_si; all assignments (<= 2^16) are enumerated: if any satisfies the constraint the flag must be True, and for every returned (expression, bound) the expression's value under every satisfying assignment must be a member of the bound's member set (reversed intervals read as delayed byte swaps). End to end, SolverReplacement(complex_auto_replace) and SolverHybrid(exact=False) must keep every feasible value of each variable within [min, max] and stay satisfiable.",
+        "note": "Claripy errors escaping constraint_to_si are counted in evidence, other exceptions are violations when the constraint has a satisfying assignment; variables are unannotated (TOP).",
     },
     "C26": {
         "level": "exploration",
@@ -148,13 +148,13 @@ CHECKS = {
     "C17": {
         "level": "fault_enumeration",
         "technique": "fault injection over generated solver histories: every (operation, solver-check index) position enumerated per history, fault kinds x reasons, answers afterwards vs a brute-force model set",
-        "text": "Generated histories (random C11/C12-style and fault-directed scenarios with several constraint groups, probes, a branch and re-queries) on Solver, SolverCacheless, SolverComposite and SolverHybrid; a counting pass learns how many backend checks each operation performs, then the history is re-run once per (operation, check index) with z3.Solver.check made to report unknown at exactly that call (without / after running the real check; reasons timeout, resource limit, canceled). The faulted operation must raise a ClaripyError other than UnsatError, and every later answer of that solver and of branches taken afterwards is compared with the brute-force model set. Positions are enumerated per generated history, histories are sampled.",
+        "text": "Generated histories (random C11/C12-style and fault-directed scenarios with several constraint groups, probes, a branch and re-queries) on Solver, SolverCacheless, SolverComposite and SolverHybrid; a counting pass learns how many backend checks each operation performs, then the history is re-run once per (operation, check index) with z3.Solver.check made to report unknown at exactly that call (without / after running the real check; reasons timeout, resource limit, canceled) or to raise z3.Z3Exception as Z3's sequence solver and memory limit do. The faulted operation must raise a ClaripyError other than UnsatError, and every later answer of that solver and of branches taken afterwards is compared with the brute-force model set. Positions are enumerated per generated history, histories are sampled.",
         "note": "The fault is injected at the z3.Solver.check boundary from outside claripy (models timeout / resource limit / interrupt as Z3 reports them); brute-force reference exact within 17 variable bits; a history that already fails without any fault is attributed to C11-C13.",
     },
     "C19": {
         "level": "exploration",
         "technique": "controlled-schedule exploration: harness-owned line-level scheduler, complete state-space DFS for 1-2 threads, preemption-bounded DFS and generated schedules for 3 threads, invariant after every step",
-        "text": "The harness owns the scheduler (trace function yields before every line of _enter_z3/_exit_z3/z3_condom and the wrapped bodies) and substitutes the module's gc and lock with a model flag and a scheduler-aware lock. For every 1- and 2-thread configuration of nested call programs (incl. bodies raising Z3Exception) and both initial GC states, every scheduling choice in every reachable state is explored; 3-thread configurations up to a preemption bound plus generated schedules. After every step: flag disabled while any call is in progress, count >= 0, no deadlock; at the end flag restored, count 0, no underflow logged.",
+        "text": "The harness owns the scheduler (trace function yields before every line of _enter_z3/_exit_z3/z3_condom and the wrapped bodies) and substitutes the module's gc and lock with a model flag and a scheduler-aware lock. For every 1- and 2-thread configuration of nested call programs (incl. bodies raising Z3Exception) and both initial GC states, every scheduling choice in every reachable state is explored; 3-thread configurations up to a preemption bound plus generated schedules. After every step: flag disabled while any call is in progress, count >= 0, no deadlock; at the end flag restored, count 0, no underflow logged. In addition, generated solver histories on seven frontend configurations run under the real collector with Z3_solver_check / Z3_solver_check_assumptions wrapped from outside claripy: the collector must be disabled whenever one is entered and restored after every operation.",
         "note": "Line granularity only (no bytecode-level interleavings inside one line); the lock and GC models are the harness's; exits 2 (not a violation) if the module-level names it rebinds disappear.",
     },
 }
